@@ -250,7 +250,7 @@ Proof.
 Qed.
 Lemma trim_ows_digits x : forallb is_digit x = true -> trim_ows x = x.
 Proof.
-  intros H. unfold trim_ows. rewrite (ltrim_ows_digits x H).
+  intros H. unfold trim_ows. rewrite !frev_rev. rewrite (ltrim_ows_digits x H).
   rewrite ltrim_ows_digits; [apply rev_involutive|].
   apply forallb_forall. intros c Hc. apply in_rev in Hc. rewrite forallb_forall in H. auto.
 Qed.
